@@ -146,6 +146,13 @@ class ExcAnalysis:
         for n in walk_no_nested(func.node):
             if isinstance(n, ast.Raise):
                 exc = 'Exception'
+                if n.exc is None:
+                    # a bare `raise` hands on what the enclosing handler caught
+                    hp_ = parent(n)
+                    while hp_ is not None and hp_ is not func.node and not isinstance(hp_, ast.ExceptHandler):
+                        hp_ = parent(hp_)
+                    if isinstance(hp_, ast.ExceptHandler) and hp_.type is not None and not isinstance(hp_.type, ast.Tuple):
+                        exc = (dotted(hp_.type) or 'Exception').split('.')[-1]
                 if n.exc is not None:
                     e = n.exc.func if isinstance(n.exc, ast.Call) else n.exc
                     exc = (dotted(e) or 'Exception').split('.')[-1]
